@@ -197,6 +197,12 @@ FAMILIES = {
     "while-nest": ("nest", lambda n: "void f(int a){" + "while(a)" * n + ";}\n"),
     "switch-nest": ("nest", lambda n: "void f(int a){" + "switch(a){case 1:" * n + ";" + "}" * n + "}\n"),
     "cases": ("len", lambda n: "void f(int a){switch(a){" + "".join("case %d:;" % i for i in range(n)) + "}}\n"),
+    # adjacent string literals: n + 1 of them, the last with a prefix that contradicts the one an earlier literal fixed (a constraint
+    # violation that has to be diagnosed whatever the number of literals seen so far), and valid runs of the same lengths
+    "strcat-mismatch-last": ("len", lambda n: "void *p = u\"a\"" + " \"b\"" * max(n - 1, 0) + " U\"c\";\n"),
+    "strcat-mismatch-mid": ("len", lambda n: "void *p = " + "\"a\" " * (n // 2) + "L\"b\"" + " \"c\"" * (n - n // 2) + " u8\"d\" \"e\";\n"),
+    "strcat-prefix-last": ("len", lambda n: "void *p = " + "\"a\" " * n + "U\"c\";\n"),
+    "strcat-prefix-first": ("len", lambda n: "void *p = u\"a\"" + " \"b\"" * n + ", *q = \"a\" \"b\" L\"c\" u\"d\";\n"),
     "cases-desc": ("len", lambda n: "void f(long a){switch(a){" + "".join("case %d:;" % (-i * 3) for i in range(n)) + "}}\n"),
     "call-args": ("len", lambda n: "int f(" + ",".join(["int"] * max(n, 1)) + ");int g(void){return f(" + ",".join(["1"] * max(n, 1)) + ");}\n"),
     "call-varargs": ("len", lambda n: "int f(int,...);int g(void){return f(0" + ",1" * n + ");}\n"),
